@@ -938,6 +938,9 @@ def run(ctx: C.Ctx):
         # ---- the generator of an EnvWizard class's __init__ / dict as text (model: lean/DW/Model/GenEnv.lean)
         from . import c15_genenv
         c15_genenv.run_genenv(ctx)
+        # ---- the EnvWizard copy of the dump-function generator, tied to the GenDump model modulo a stated substitution
+        from . import c15_genenvdump
+        c15_genenvdump.run_genenvdump(ctx)
     finally:
         model.SAFE = False
         logging.disable(logging.NOTSET)
